@@ -41,10 +41,36 @@ theorem enqueue_ok_inv [StrictWeak lt] [IgnoresHidx lt] {s s' : HH} (h : WF lt s
   · obtain ⟨f, hf⟩ := enqueue_error_of_no_room h hroom it k d i
     rw [hf] at hrun; cases hrun
 
+/-! ### raw facts read off the code (no well-formedness needed) -/
+
+theorem remove_false_eq {s s' : HH} {k : Nat} (h : remove lt s k = .ok (s', false)) : s' = s := by
+  unfold remove at h
+  simp only [bind, Except.bind] at h
+  repeat' (first | (split at h) | (cases h; done) | (cases h; rfl))
+
+theorem heapDown_count {s s' : HH} {k : Nat} (h : heapDown lt s k = .ok s') : s'.count = s.count := by
+  unfold heapDown at h
+  simp only [bind, Except.bind] at h
+  repeat' (first | (split at h) | (cases h; done) | (cases h; rfl))
+
+theorem heapUp_count {s s' : HH} {k : Nat} (h : heapUp lt s k = .ok s') : s'.count = s.count := by
+  unfold heapUp at h
+  simp only [bind, Except.bind] at h
+  repeat' (first | (split at h) | (cases h; done) | (cases h; rfl))
+
+theorem reprioritize_count {s s' : HH} {k : Nat} {d i : Int} (h : reprioritize lt s k d i = .ok s') : s'.count = s.count := by
+  unfold reprioritize at h
+  simp only [bind, Except.bind] at h
+  repeat' (first | (split at h) | (cases h; done))
+  · have := heapDown_count h; exact this
+  · have := heapUp_count h; exact this
+
 /-! ### lists of tags -/
 
 /-- total of the second payload word (the amount held, for a pool's holder list) -/
 def amounts (q : KPQ) : Nat := (q.map (·.item.b)).sum
+
+theorem keys_perm_of_perm {q q' : KPQ} (h : q.Perm q') : (keys q).Perm (keys q') := h.map _
 
 theorem amounts_perm {q q' : KPQ} (h : q.Perm q') : amounts q = amounts q' := (h.map _).sum_nat
 
